@@ -47,6 +47,10 @@ pub enum ByzEdit {
     /// sibling subtree live), then shift the value correction word of the queried level so that the
     /// on-path candidate and ONE live candidate `dist` positions away sum to (1, authenticator)
     SplitOne { flip_level: u16, dist: u16 },
+    /// a client that bets on the verification randomness of the on-path candidate being `guess`: on-path value of
+    /// `level` re-programmed to (beta, k * beta) and the leader's B share of that level shifted by
+    /// -(beta^2 - beta) * guess^2, which cancels the sketch check exactly when the randomness equals +-guess
+    GuessR { level: u16, beta: String, guess: u8 },
 }
 
 /// What re-evaluation of a rewritten report with the real code shows for one aggregation parameter.
